@@ -359,6 +359,13 @@ pub broadcast axiom fn axiom_to_string_string(t: &String, s: String)
 pub assume_specification[ <String as PartialEq<str>>::eq ](a: &String, b: &str) -> (r: bool)
     ensures r == (a@ == b@);
 
+pub assume_specification[ <str as PartialEq<str>>::eq ](a: &str, b: &str) -> (r: bool)
+    ensures r == (a@ == b@);
+
+// std functions a change to the engine may plausibly start using (their std meaning, assumed)
+pub assume_specification<T>[ core::mem::replace::<T> ](dest: &mut T, src: T) -> (r: T)
+    ensures *final(dest) == src, r == *old(dest);
+
 pub broadcast axiom fn axiom_sep_contains(s: Seq<char>)
     ensures #[trigger] str_contains(s, "!!!"@) == str_contains_sep(s);
 pub broadcast axiom fn axiom_multi_contains(s: Seq<char>)
